@@ -79,6 +79,19 @@ def blow_up_number(rng, s, pool):
     return s[:i + 1] + d + s[i + 1:]
 
 
+def legacy_atom(rng):
+    """A pre-v2 atom symbol put together field by field: bond prefix, isotope, element (any case, aromatic ones too),
+    chirality, H count, charge in either notation - then 'expl'."""
+    el = rng.choice(["C", "N", "O", "S", "P", "B", "F", "Cl", "Br", "I", "Fe", "Cu", "Si", "Se", "c", "n", "o", "s", "p", "b", "se", "as", "te", "Xx", "H"])
+    s = rng.choice(["", "", "", "=", "#", "/", "\\"])
+    s += rng.choice(["", "", "", "13", "2", "0", "235", "015"])
+    s += el
+    s += rng.choice(["", "", "", "@", "@@"])
+    s += rng.choice(["", "", "H", "H1", "H2", "H0", "H3"])
+    s += rng.choice(["", "", "+", "-", "++", "--", "+1", "-1", "+2", "-3", "+0", "+10"])
+    return "[" + s + "expl]"
+
+
 def hostile_selfies(rng, seeds=()):
     """One hostile decoder input with a class tag."""
     x = rng.random()
@@ -91,7 +104,7 @@ def hostile_selfies(rng, seeds=()):
         return "mutated", mutate_chars(rng, rng.choice(seeds), SELFIES_CHARS)
     if x < 0.72:
         pool = MODERN + LEGACY + LEGACY
-        return "legacy", "".join(rng.choice(pool) for _ in range(rng.randint(1, 20)))
+        return "legacy", "".join((rng.choice(pool) if rng.random() < 0.75 else legacy_atom(rng)) for _ in range(rng.randint(1, 20)))
     if x < 0.76 and seeds:
         return "digits", blow_up_number(rng, rng.choice(list(seeds) + ["[13CH3][N+1][Fe+2][C@@H1][=Ring2][Branch3]"]), None)
     if x < 0.80:
